@@ -134,6 +134,32 @@ class simplify_chained_calls(FuncADLNodeTransformer):
     def __init__(self):
         self._arg_stack = argument_stack()
 
+    def _visit_substituted(self, node: ast.AST) -> ast.AST:
+        """Visit a node built out of parts that have already been visited. Every pending
+        substitution has been applied to those parts, and must not be applied a second time:
+        a name in a substituted argument could then be taken for an inner lambda's parameter
+        of the same name.
+        """
+        saved = self._arg_stack
+        self._arg_stack = argument_stack()
+        try:
+            return self.visit(node)
+        finally:
+            self._arg_stack = saved
+
+    def _fuse(self, rule, parent: ast.Call, func: ast.Lambda) -> ast.AST:
+        """Apply a rule that combines an already visited parent call with `func`. The rules
+        visit what they build, so `func` is visited first and the rule then runs with no
+        substitution pending (see `_visit_substituted`).
+        """
+        func = self.visit(func)
+        saved = self._arg_stack
+        self._arg_stack = argument_stack()
+        try:
+            return rule(parent, func)
+        finally:
+            self._arg_stack = saved
+
     def visit_Select_of_Select(self, parent: ast.Call, selection: ast.Lambda):
         r"""
         seq.Select(x: f(x)).Select(y: g(y))
@@ -204,9 +230,9 @@ class simplify_chained_calls(FuncADLNodeTransformer):
 
         parent_select = self.visit(source)
         if is_call_of(parent_select, "Select"):
-            return self.visit_Select_of_Select(parent_select, transform)
+            return self._fuse(self.visit_Select_of_Select, parent_select, transform)
         elif is_call_of(parent_select, "SelectMany"):
-            return self.visit_Select_of_SelectMany(parent_select, transform)
+            return self._fuse(self.visit_Select_of_SelectMany, parent_select, transform)
         else:
             selection = self.visit(transform)
             return make_Select(parent_select, selection)
@@ -279,9 +305,9 @@ class simplify_chained_calls(FuncADLNodeTransformer):
         assert isinstance(selection, ast.Lambda)
         parent_select = self.visit(args[0])
         if is_call_of(parent_select, "SelectMany"):
-            return self.visit_SelectMany_of_SelectMany(parent_select, selection)
+            return self._fuse(self.visit_SelectMany_of_SelectMany, parent_select, selection)
         elif is_call_of(parent_select, "Select"):
-            return self.visit_SelectMany_of_Select(parent_select, selection)
+            return self._fuse(self.visit_SelectMany_of_Select, parent_select, selection)
         else:
             return function_call("SelectMany", [parent_select, self.visit(selection)])
 
@@ -380,11 +406,11 @@ class simplify_chained_calls(FuncADLNodeTransformer):
 
         parent_where = self.visit(source)
         if is_call_of(parent_where, "Where"):
-            return self.visit_Where_of_Where(parent_where, filter)
+            return self._fuse(self.visit_Where_of_Where, parent_where, filter)
         elif is_call_of(parent_where, "Select"):
-            return self.visit_Where_of_Select(parent_where, filter)
+            return self._fuse(self.visit_Where_of_Select, parent_where, filter)
         elif is_call_of(parent_where, "SelectMany"):
-            return self.visit_Where_of_SelectMany(parent_where, filter)
+            return self._fuse(self.visit_Where_of_SelectMany, parent_where, filter)
         else:
             f = self.visit(filter)
             if lambda_is_true(f):
@@ -542,7 +568,8 @@ class simplify_chained_calls(FuncADLNodeTransformer):
             first, lambda_build(a, ast.Subscript(ast.Name(a, ast.Load()), s, ast.Load()))
         )
 
-        return self.visit(function_call("First", [select]))
+        # `first` and `s` have been visited by visit_Subscript
+        return self._visit_substituted(function_call("First", [select]))
 
     def visit_Subscript(self, node):
         r"""
